@@ -8,6 +8,7 @@ NOT decided here (see DESIGN.md section 8): termination of waits, lost wake-ups,
 import z3
 
 from pyvc.contracts import Any, Bool, ExtSpec, ExtT, Int, ListOfT, LockT, LoopSpec, ObjT, OptT, SetT, Str
+from pyvc.values import U
 
 from .a_common import DONE, F, S, UT, status_in
 from .a_tasks import T, TASK, TC, calls, exts, index_of, trivial_loop
@@ -104,9 +105,36 @@ def register(R):
     R.monitor(TC, lock='_associated_futures_lock', fields=dict(_associated_futures=SetT('U')),
               invariant=lambda v, ref: {}, props=['C04'])
     SHC = ObjT(TC, shared=True)
-    R.contract(f'{TC}.add_associated_future', props=['C04'], self_type=SHC, params=dict(future=ExtT('future')), raises={})
-    R.contract(f'{TC}.remove_associated_future', props=['C04'], self_type=SHC, params=dict(future=ExtT('future')),
-               raises={'KeyError': lambda c: {}})
+    # the futures a failed submission waits for before it announces done (C05 / C08: nothing announced while a request of
+    # the transfer is still running): add really adds, remove really removes, nothing else changes
+    def assoc_sets(c):
+        old = c.new.st.ghost.get(('mon_old', c.self.oid))
+        p0 = old.obj(old.obj(c.self).fields['_associated_futures']).meta['present'] if old is not None else None
+        p1 = c.new.obj(c.newf('_associated_futures')).meta['present']
+        return p0, p1
+    xx = z3.Const('xx_fut', U)
+
+    def add_post(c):
+        p0, p1 = assoc_sets(c)
+        if p0 is None:
+            return {'set_updated_under_its_lock': B(False)}
+        k = c.a_future.term
+        return {'future_is_tracked_afterwards': z3.Select(p1, k),
+                'other_members_untouched': z3.ForAll([xx], z3.Implies(xx != k, z3.Select(p1, xx) == z3.Select(p0, xx)))}
+
+    def rem_post(c):
+        p0, p1 = assoc_sets(c)
+        if p0 is None:
+            return {'set_updated_under_its_lock': B(False)}
+        k = c.a_future.term
+        return {'future_is_no_longer_tracked': z3.Not(z3.Select(p1, k)),
+                'other_members_untouched': z3.ForAll([xx], z3.Implies(xx != k, z3.Select(p1, xx) == z3.Select(p0, xx)))}
+
+    ASSOC_PROPS = ['C04', 'C05', 'C08']
+    R.contract(f'{TC}.add_associated_future', props=ASSOC_PROPS, self_type=SHC, old_at='acquire', params=dict(future=ExtT('future')),
+               ensures=add_post, raises={})
+    R.contract(f'{TC}.remove_associated_future', props=ASSOC_PROPS, self_type=SHC, old_at='acquire', params=dict(future=ExtT('future')),
+               ensures=rem_post, raises={'KeyError': lambda c: {}})
 
     # ------------------------------------------------------------------ controller
     CTRL = f'{M}:TransferCoordinatorController'
